@@ -64,14 +64,14 @@ package rac
 //@   ensures math(result) == math(u48(b)) + math(b[6])*281474976710656 + math(b[7])*72057594037927936
 
 //@ spec ar(b *rNode) int = int(b[3])
-//@ spec dptr(b *rNode, i int) int64 = ite(i == 0, 0, u48(b[8*i:]))
-//@ spec cptr(b *rNode, i int) int64 = u48(b[8*i+8*ar(b)+8:])
-//@ spec ttag(b *rNode, i int) byte = b[8*i+7]
-//@ spec stag(b *rNode, i int) byte = b[8*i+8*ar(b)+15]
+//@ ospec dptr(b *rNode, i int) int64 = ite(i == 0, 0, u48(b[8*i:]))
+//@ ospec cptr(b *rNode, i int) int64 = u48(b[8*i+8*ar(b)+8:])
+//@ ospec ttag(b *rNode, i int) byte = b[8*i+7]
+//@ ospec stag(b *rNode, i int) byte = b[8*i+8*ar(b)+15]
 
 // V is the structural part of the RAC specification's "Branch Node Validation"
 // (checksum and codec pattern are separate, see valid's contract).
-//@ spec V(b *rNode) bool = b != nil && b[0] == 0x72 && b[1] == 0xC3 && b[2] == 0x63 && b[3] != 0 && b[16*ar(b)+15] == b[3] && b[8*ar(b)+6] == 0 && b[16*ar(b)+14] != 0 && forall(i, 0, ar(b), b[8*i+6] == 0 && !(0xC0 <= ttag(b, i) && ttag(b, i) < 0xFD)) && exists(i, 0, ar(b), ttag(b, i) != 0xFD) && forall(i, 0, ar(b), dptr(b, i) <= dptr(b, i+1)) && forall(i, 0, ar(b), implies(ttag(b, i) == 0xFD, dptr(b, i) == dptr(b, i+1))) && forall(i, 0, ar(b), implies(ttag(b, i) != 0xFD, cptr(b, i) <= cptr(b, ar(b))))
+//@ spec V(b *rNode) bool = b != nil && b[0] == 0x72 && b[1] == 0xC3 && b[2] == 0x63 && b[3] != 0 && b[16*ar(b)+15] == b[3] && b[8*ar(b)+6] == 0 && b[16*ar(b)+14] != 0 && forall(i, 0, ar(b), b[8*i+6] == 0 && !(0xC0 <= ttag(b, i) && ttag(b, i) < 0xFD)) && exists(i, 0, ar(b), ttag(b, i) != 0xFD) && forall(i, 0, ar(b), dptr(b, i) <= dptr(b, i+1)) && forall(i, 0, ar(b)+1, dptr(b, i) <= dptr(b, ar(b))) && forall(i, 0, ar(b), implies(ttag(b, i) == 0xFD, dptr(b, i) == dptr(b, i+1))) && forall(i, 0, ar(b), implies(ttag(b, i) != 0xFD, cptr(b, i) <= cptr(b, ar(b))))
 
 //@ func (*rNode).findChunkContaining
 //@   prop C15 C14
@@ -94,6 +94,7 @@ package rac
 //@   loop 1 decreases arity - i
 //@   loop 2 invariant 1 <= i && i <= arity + 1 && arity == ar(b) && prev == dptr(b, i-1)
 //@   loop 2 invariant forall(k, 0, i-1, dptr(b, k) <= dptr(b, k+1))
+//@   loop 2 invariant forall(k, 0, i, dptr(b, k) <= prev)
 //@   loop 2 invariant forall(k, 0, i-1, implies(ttag(b, k) == 0xFD, dptr(b, k) == dptr(b, k+1)))
 //@   loop 2 decreases arity + 1 - i
 //@   loop 3 invariant 0 <= i && i <= arity && arity == ar(b) && base == 8*arity + 8 && cPtrMax == cptr(b, arity)
@@ -110,3 +111,99 @@ package rac
 //@   pure
 //@   loop 1 invariant 0 <= j && j <= 4 && arity == ar(b) && cByte <= 0x3F
 //@   loop 1 decreases 4 - j
+
+// ---- chunk_reader.go: ChunkReader ----
+
+//@ spec p48() int64 = 281474976710656
+
+// nodeOK: the node held in r.currNode is valid and its C/D windows lie inside
+// the file and the decompressed size.
+//@ spec nodeOK(r *ChunkReader) bool = V(r.currNode) && 0 <= r.currNodeCBias && r.currNodeCBias + cptr(r.currNode, ar(r.currNode)) <= r.CompressedSize && 0 <= r.currNodeDBias && r.currNodeDBias + dptr(r.currNode, ar(r.currNode)) <= r.decompressedSize
+
+//@ spec inChunk(r *ChunkReader) bool = int(r.nextChunk) < ar(r.currNode) && r.seekPosition < r.currNodeDBias + dptr(r.currNode, int(r.nextChunk) + 1) && ttag(r.currNode, int(r.nextChunk)) != 0xFE
+// crBase / crInv: object invariant of an initialised, error-free ChunkReader.
+//@ spec crBase(r *ChunkReader) bool = r.readSeeker != nil && 32 <= r.CompressedSize && r.CompressedSize < p48() && 0 <= r.decompressedSize && r.decompressedSize < p48() && r.rootNodeArity != 0 && 0 <= r.rootNodeCOffset && 0 <= r.seekPosition
+//@ spec crInv(r *ChunkReader) bool = crBase(r) && implies(!r.needToResolveSeekPosition, nodeOK(r) && 0 <= r.nextChunk && int(r.nextChunk) <= ar(r.currNode) && r.currNodeDBias + dptr(r.currNode, int(r.nextChunk)) <= r.seekPosition && (r.seekPosition == r.currNodeDBias + dptr(r.currNode, int(r.nextChunk)) || inChunk(r)))
+
+//@ func (*rNode).chunk
+//@   prop C15 C14
+//@   pure
+//@   requires V(b) && 0 <= i && i < ar(b) && 0 <= cBias && cBias <= p48() && 0 <= dBias && dBias <= p48()
+//@   ensures result.DRange[0] == dBias + dptr(b, i) && result.DRange[1] == dBias + dptr(b, i+1)
+//@   ensures result.TTag == ttag(b, i) && result.STag == stag(b, i)
+//@   ensures implies(ttag(b, i) != 0xFD, cBias <= result.CPrimary[0] && result.CPrimary[0] <= result.CPrimary[1] && result.CPrimary[1] <= cBias + cptr(b, ar(b)))
+
+//@ func (*ChunkReader).checkParameters
+//@   prop C15
+//@   ensures implies(result == nil, r.ReadSeeker != nil && r.CompressedSize >= 32 && unchanged(r.err))
+//@   ensures implies(result != nil, r.err != nil)
+//@   modifies r.err
+
+//@ func (*ChunkReader).load
+//@   prop C15
+//@   requires r.readSeeker != nil
+//@   ensures implies(result != nil, r.err != nil)
+//@   ensures implies(result == nil, unchanged(r.err))
+//@   modifies r.err, mem(r.currNode)
+
+//@ func (*ChunkReader).loadAndValidate
+//@   prop C15
+//@   requires r.readSeeker != nil && 0 <= childCBias && childCBias <= 2*p48() && 32 <= r.CompressedSize && r.CompressedSize < p48()
+//@   ensures implies(result != nil, r.err != nil)
+//@   ensures implies(result == nil, unchanged(r.err) && V(r.currNode) && childCBias + cptr(r.currNode, ar(r.currNode)) <= parentCOffMax && dptr(r.currNode, ar(r.currNode)) == childDSize)
+//@   modifies r.err, mem(r.currNode)
+
+//@ func (*ChunkReader).tryRootNode
+//@   prop C15
+//@   requires r.readSeeker != nil && r.CompressedSize >= 32
+//@   ensures implies(ioErr != nil, r.err != nil && !found)
+//@   ensures implies(ioErr == nil, unchanged(r.err))
+//@   ensures implies(found, ioErr == nil && V(r.currNode) && r.needToResolveSeekPosition && r.rootNodeArity != 0 && 0 <= r.rootNodeCOffset && r.CompressedSize < p48() && r.decompressedSize == dptr(r.currNode, ar(r.currNode)) && 0 <= r.decompressedSize && r.decompressedSize < p48())
+//@   modifies r.err, mem(r.currNode), r.needToResolveSeekPosition, r.rootNodeCOffset, r.rootNodeArity, r.decompressedSize
+
+//@ func (*ChunkReader).findRootNode
+//@   prop C15
+//@   requires r.readSeeker != nil && r.CompressedSize >= 32
+//@   ensures[sticky] implies(result != nil, r.err != nil)
+//@   ensures implies(result == nil, unchanged(r.err) && V(r.currNode) && r.needToResolveSeekPosition && r.rootNodeArity != 0 && 0 <= r.rootNodeCOffset && r.CompressedSize < p48() && 0 <= r.decompressedSize && r.decompressedSize < p48())
+//@   modifies r.err, mem(r.currNode), r.needToResolveSeekPosition, r.rootNodeCOffset, r.rootNodeArity, r.decompressedSize
+
+//@ func (*ChunkReader).initialize
+//@   prop C15
+//@   requires 0 <= r.seekPosition && implies(r.initialized && r.err == nil, crInv(r))
+//@   ensures implies(result == nil, r.err == nil && r.initialized && crInv(r))
+//@   ensures implies(result != nil, r.err != nil)
+//@   ensures implies(old(r.initialized) && old(r.err) == nil, unchanged(r.needToResolveSeekPosition) && unchanged(r.seekPosition) && unchanged(r.nextChunk) && unchanged(r.currNodeCBias) && unchanged(r.currNodeDBias) && unchanged(mem(r.currNode)) && unchanged(r.decompressedSize))
+//@   ensures unchanged(r.seekPosition)
+//@   modifies r.err, r.initialized, r.readSeeker, mem(r.currNode), r.needToResolveSeekPosition, r.rootNodeCOffset, r.rootNodeArity, r.decompressedSize
+
+//@ func (*ChunkReader).resolveSeekPosition
+//@   prop C15 C14
+//@   requires crBase(r) && r.seekPosition < r.decompressedSize
+//@   ensures implies(result != nil, r.err != nil)
+//@   ensures implies(result == nil, unchanged(r.err) && nodeOK(r))
+//@   ensures implies(result == nil, 0 <= r.nextChunk && int(r.nextChunk) < ar(r.currNode))
+//@   ensures implies(result == nil, r.currNodeDBias + dptr(r.currNode, int(r.nextChunk)) <= r.seekPosition && r.seekPosition < r.currNodeDBias + dptr(r.currNode, int(r.nextChunk) + 1))
+//@   ensures implies(result == nil, ttag(r.currNode, int(r.nextChunk)) != 0xFE)
+//@   modifies r.err, mem(r.currNode), r.nextChunk, r.currNodeCBias, r.currNodeDBias
+//@   assume@after load#1 implies(result == nil, V(r.currNode) && cptr(r.currNode, ar(r.currNode)) == r.CompressedSize && dptr(r.currNode, ar(r.currNode)) == r.decompressedSize)
+//@   loop 1 invariant V(r.currNode)
+//@   loop 1 invariant 0 <= cBias && cBias + cptr(r.currNode, ar(r.currNode)) <= r.CompressedSize
+//@   loop 1 invariant 0 <= dBias && dBias <= r.seekPosition && r.seekPosition < dBias + dptr(r.currNode, ar(r.currNode))
+//@   loop 1 invariant dBias + dptr(r.currNode, ar(r.currNode)) <= r.decompressedSize
+//@   loop 1 invariant unchanged(r.err) && unchanged(r.seekPosition) && unchanged(r.CompressedSize) && unchanged(r.decompressedSize) && unchanged(r.readSeeker) && 0 <= depth
+//@   loop 1 decreases (r.CompressedSize / 32) + 1 - depth
+
+//@ func (*ChunkReader).NextChunk
+//@   prop C15 C14
+//@   requires 0 <= r.seekPosition && implies(r.initialized && r.err == nil, crInv(r))
+//@   ensures implies(result1 == nil, r.err == nil && r.initialized && crInv(r))
+//@   ensures[drange] implies(result1 == nil, result0.DRange[0] < result0.DRange[1] && result0.DRange[0] <= old(r.seekPosition) && old(r.seekPosition) < result0.DRange[1] && result0.DRange[1] <= r.decompressedSize && r.seekPosition == result0.DRange[1])
+//@   ensures[cprimary] implies(result1 == nil, 0 <= result0.CPrimary[0] && result0.CPrimary[0] <= result0.CPrimary[1] && result0.CPrimary[1] <= r.CompressedSize)
+//@   ensures[leaf] implies(result1 == nil, result0.TTag != 0xFE && result0.TTag != 0xFD)
+//@   modifies r.err, r.initialized, r.readSeeker, mem(r.currNode), r.needToResolveSeekPosition, r.rootNodeCOffset, r.rootNodeArity, r.decompressedSize, r.seekPosition, r.nextChunk, r.currNodeCBias, r.currNodeDBias
+//@   loop 1 invariant r.initialized && r.err == nil && crInv(r) && r.seekPosition == old(r.seekPosition)
+//@   loop 1 decreases ite(r.needToResolveSeekPosition, 0, 1)
+//@   loop 2 invariant r.initialized && r.err == nil && crInv(r) && !r.needToResolveSeekPosition && int(n) == ar(r.currNode) && r.seekPosition == old(r.seekPosition)
+//@   loop 2 invariant implies(athead(1, r.needToResolveSeekPosition), inChunk(r))
+//@   loop 2 decreases int(n) - int(r.nextChunk)
